@@ -1,6 +1,6 @@
 (* C13 -- Poisson entropy is the true Poisson entropy, element by element (partial). *)
 From Coq Require Import List Arith ZArith QArith Bool Reals.
-From CE Require Import Model.Poisson Model.Itv Proofs.PoissonProofs Proofs.ItvProofs.
+From CE Require Import Model.Poisson Model.Itv Proofs.PoissonProofs Proofs.ItvProofs Proofs.PoissonTail Proofs.PoissonSeries.
 Import ListNotations.
 
 (* the vector call never stops before the scalar call of any of its elements would have stopped, for every
@@ -41,3 +41,25 @@ Theorem C13_enclosure_check_is_sound : forall a b tol, close_check a b tol = tru
   (Rabs (evalR [] a - evalR [] b) <= evalR [] tol)%R.
 Proof. exact close_sound. Qed.
 Print Assumptions C13_enclosure_check_is_sound.
+
+(* the expression evaluated by the interval layer IS the partial sum - sum_{k<=K} p_k ln p_k of the Poisson(lambda) law *)
+Theorem C13_truncated_series_expression_meaning : forall K lamE lam, evalR [] lamE = lam -> (0 < lam)%R ->
+  evalR [] (entropy_trunc_expr K lamE) = partial_entropy lam K.
+Proof. exact entropy_trunc_meaning. Qed.
+Print Assumptions C13_truncated_series_expression_meaning.
+
+(* every finite piece of the tail beyond a tiny term is tiny: with 2 lambda <= K+1 and p_K <= delta <= 1/e,
+   sum_{j=1..M} -p_{K+j} ln p_{K+j} <= delta (-ln delta + 2 ln 2) for EVERY M *)
+Theorem C13_tail_of_the_entropy_series_is_bounded : forall lam K delta M, (0 < lam)%R -> (2 * lam <= INR (S K))%R ->
+  (pk lam K <= delta)%R -> (delta <= exp (-1))%R ->
+  (sumR (fun j => hx (pk lam (K + j))) M <= delta * (- ln delta + 2 * ln 2))%R.
+Proof. exact tail_bound. Qed.
+Print Assumptions C13_tail_of_the_entropy_series_is_bounded.
+
+(* a successful complete check certifies that EVERY partial sum from K on -- hence the Poisson entropy itself -- is within
+   1e-9 of the returned value *)
+Theorem C13_complete_accuracy_certificate : forall ln_ ld K vn vd, check_entropy_full_case (ln_, ld, K, vn, vd) = true ->
+  let lam := (IZR ln_ / IZR ld)%R in let v := (IZR vn / IZR vd)%R in
+  (0 < lam)%R /\ forall M, (Rabs (partial_entropy lam (K + M) - v) <= / 10 ^ 9)%R.
+Proof. exact entropy_full_sound. Qed.
+Print Assumptions C13_complete_accuracy_certificate.
